@@ -448,6 +448,24 @@ fn handle(line: &str) -> String {
             }
         }
         #[cfg(feature = "full")]
+        "online_minima" => {
+            // smawk::online_column_minima over an arbitrary "matrix": the k-th call of the closure returns the
+            // k-th listed value (0.0 when the list is exhausted); every call is reported as i:j:len(minima)
+            let size: usize = t[1].parse().unwrap();
+            let vals = parse_f64s(t[2]);
+            let calls = std::cell::RefCell::new(Vec::<(usize, usize, usize)>::new());
+            let res = smawk::online_column_minima(0.0f64, size, |m: &[(usize, f64)], i, j| {
+                let mut c = calls.borrow_mut();
+                let v = vals.get(c.len()).copied().unwrap_or(0.0);
+                c.push((i, j, m.len()));
+                v
+            });
+            let rows: Vec<String> = res.iter().map(|(r, _)| r.to_string()).collect();
+            let cs: Vec<String> = calls.borrow().iter().map(|(i, j, l)| format!("{}:{}:{}", i, j, l)).collect();
+            format!("OK {} {}", if rows.is_empty() { "-".to_string() } else { rows.join(",") },
+                    if cs.is_empty() { "-".to_string() } else { cs.join(",") })
+        }
+        #[cfg(feature = "full")]
         "linebreaks" => {
             let s = unhex(t[1]);
             let mut out = String::from("OK");
